@@ -117,12 +117,23 @@ def root_kind(t):
     return h[1] if h[0] in ('Bin', 'Un') else h[0]
 
 
+def stream_sig(ctx):
+    from sigstream import run_sig_streams
+    st_sig = ctx.stream('sig', 'typed random DAGs (1-3 formulas side by side, sharing p=0.25): get_signature() bytes parsed into the '
+                        'fields the engine reads vs Model/Sig.v signature; decode(signature) = resolve(erase) evaluated on the same '
+                        'case; non-trivial = at least 4 lines; distinct by case')
+    st_ids = ctx.stream('ids', 'IdManager tables (names per class, global indices) vs Model/IdMgr.v prepare; a malformed sub-stream '
+                        'plants a name used for two kinds of element; non-trivial = at least 2 parameters')
+    run_sig_streams(ctx, st_sig, st_ids, ctx.n(150, 3000), ctx.n(20, 300))
+
+
 def run(ctx):
     ctx.assumptions += ASSUME
     ctx.trusted += ['engine semantics modelled (rocq/Model/EvalX.v), not verified',
                     'expression bridge lib/impl/bio_bridge.py / bio_build.py (round trip checked on every case)']
     ctx.build()
     stream_values(ctx)
+    stream_sig(ctx)
 
 
 def replay(ctx, path):
